@@ -26,6 +26,14 @@ func runC18(p *eng.Prog, r *eng.Report, tier string) {
 	// self-presence with an unknown role is dropped and Join never returns)
 	c19EnumLoops(c, "C18.9", func(f *eng.Fn) bool { return strings.HasPrefix(f.Short, "muc.") })
 	staleNotification(c, "C18.10")
+	// C18.13 the table is keyed by address strings: the addresses built from a
+	// nickname are canonical (enforced bytes), so that the key under which a
+	// channel is registered is the key the room's presence is looked up with
+	c11NoRawPartAppended(c, "C18.13")
+	jidEqualRule(c, "C18.13")
+	// C18.14 the room's presences are only processed while the serve loop runs:
+	// every response a join/leave obtains is released on every path (E-res)
+	respRelease(c, "C18.14", 8)
 	// ---- C18.1 key agreement, C18.2 locks -------------------------------------
 	n := 0
 	for _, f := range c.allFns() {
